@@ -878,6 +878,66 @@ def past_eof_cases(ctx):
     ctx.trace(len(terms) - len(bad))
 
 
+def prefetch_boundary_cases(ctx):
+    """Forced in every run: files whose single block ends at share bytes 3998..4003, i.e. around the
+    4000-byte share prefix that the servermap update prefetches and MDMFSlotReadProxy._read answers
+    reads from.  Sizes are derived from the share_data offset of a probe file's own offsets table."""
+    from core import grid as G
+    from allmydata.mutable.publish import MutableData
+    from allmydata.mutable.common import MODE_READ
+    prefetch = 4000          # ServermapUpdater._read_size in MODE_READ/MODE_WRITE
+    for fmt in ("sdmf", "mdmf"):
+        r = ctx.rng("prefetch", fmt)
+        k = r.choice([2, 3])
+        case0 = {"format": fmt, "k": k}
+        with G.Grid(num_clients=2, num_servers=k + 2, k=k, n=k + 2, happy=1, seed=r.getrandbits(30), timeout=180) as g:
+            probe = rbytes(r, 900)
+            node = g.run(g.create_mutable(probe, version=fmt, keypair=g.keypair(0)))
+            cap = node.get_uri()
+            sm = g.run(node.get_servermap(MODE_READ))
+            verinfo = sm.best_recoverable_version()
+            start = dict(verinfo[8])["share_data"]
+            salt = 16 if fmt == "mdmf" else 0
+            sizes = []
+            for d in (-2, -1, 0, 1, 2, 3):
+                blocklen = prefetch + d - start - salt
+                if blocklen > 0:
+                    sizes.append((d, blocklen * k - (d % k)))        # one padding amount per boundary position
+            if len(sizes) < 6:
+                ctx.mismatch("prefetch-boundary-not-reachable", "share_data offset %d leaves no block ending at byte %d" % (start, prefetch),
+                             case=case0, correspondence="grid-histories-vs-model")
+            for (d, size) in sizes:
+                data = rbytes(r, size)
+                case = dict(case0, share_data_offset=start, block_end=prefetch + d, size=size)
+                ctx.case((fmt, k, d), kind="prefetch-boundary:" + fmt)
+                o = g.run(node.overwrite(MutableData(data)), outcome=True)
+                if o.status != "ok":
+                    ctx.oracle_fail("operation-failed:%s:overwrite:%s" % (fmt, o.error), "overwrite with %d bytes (block ends at share byte %d) fails with %s"
+                                    % (size, prefetch + d, o.error), case=case)
+                    continue
+                steps = [("same-node", lambda: node.download_best_version()), ("fresh-client", lambda: g.mutable_read(cap, client=1))]
+                good = True
+                for (label, rd) in steps:
+                    got = g.run(rd(), outcome=True)
+                    if got.status != "ok" or got.value != data:
+                        ctx.oracle_fail("read-at-prefetch-boundary:%s:%s" % (fmt, ("failed:" + str(got.error)) if got.status != "ok" else "differs"),
+                                        "after overwrite with %d bytes (the block of the single segment ends at share byte %d, prefetch %d) the read through %s %s"
+                                        % (size, prefetch + d, prefetch, label, ("fails with %s" % got.error) if got.status != "ok" else "returns other bytes"), case=case)
+                        good = False
+                        break
+                if not good:
+                    continue
+                o = g.run(node.modify(lambda old, sm_, ft: old[:-1] + bytes([old[-1] ^ 0xff])), outcome=True)
+                want = data[:-1] + bytes([data[-1] ^ 0xff])
+                got = g.run(g.mutable_read(cap, client=1), outcome=True)
+                if o.status != "ok" or got.status != "ok" or got.value != want:
+                    ctx.oracle_fail("read-at-prefetch-boundary:%s:after-modify" % fmt,
+                                    "one-byte modify of the %d-byte file (block ends at share byte %d): modify %s, read %s"
+                                    % (size, prefetch + d, o.error or o.status, got.error or ("ok" if got.value == want else "differs")), case=case)
+                else:
+                    ctx.trace(1)
+
+
 def run(ctx):
     import allmydata.mutable.publish as P
     ctx.note("DEFAULT_MUTABLE_MAX_SEGMENT_SIZE = %d in /repo; replaced per case through the module attribute of allmydata.mutable.publish" % P.DEFAULT_MUTABLE_MAX_SEGMENT_SIZE)
@@ -891,6 +951,7 @@ def run(ctx):
     pure_update_cases(ctx, pool)
     flush_pool(ctx, pool, "c09pure")
     grid_cases(ctx)
+    prefetch_boundary_cases(ctx)
     past_eof_cases(ctx)
 
 
